@@ -11,9 +11,33 @@ import (
 )
 
 // vpC02Object: an object with two ordinary members (one with an arbitrary 3-byte name, so it may or may not be called
-// anything special), optionally `unsigned` and optionally pre-existing signatures of another entity.
+// anything special), optionally a number member (see below), optionally `unsigned` and optionally pre-existing signatures of another entity.
 func vpC02Object(k string, hasUnsigned, hasOldSig bool) []byte {
 	args := []interface{}{"a", vpNondetStringN("a.val", 2), k, vpNondetStringN("k.val", 2)}
+	// a number among the signed members, in spellings that do not survive a trip through float64 / re-printing
+	// (signing and verifying must work on the text as given), at the top level or nested
+	var num interface{}
+	switch vpChoice("number", "none", "small", "2^53+1", "max-u64", "1.0", "1e2", "0.10") {
+	case "small":
+		num = int64(vpNondetBits("n.small", 20))
+	case "2^53+1":
+		num = vpJNumLit("9007199254740993")
+	case "max-u64":
+		num = vpJNumLit("18446744073709551615")
+	case "1.0":
+		num = vpJNumLit("1.0")
+	case "1e2":
+		num = vpJNumLit("1e2")
+	case "0.10":
+		num = vpJNumLit("0.10")
+	}
+	if num != nil {
+		if vpNondetBool("number_nested") {
+			args = append(args, "n", vpJObj("deep", vpJArr(num)))
+		} else {
+			args = append(args, "n", num)
+		}
+	}
 	if hasUnsigned {
 		args = append(args, "unsigned", vpJObj("age", vpNondetI64("age")))
 	}
@@ -30,7 +54,7 @@ func vpC02Object(k string, hasUnsigned, hasOldSig bool) []byte {
 func vp_C02_sign_verify() {
 	k := vpNondetStringN("k", 3)
 	for i := 0; i < 3; i++ {
-		vpAssume(k[i] >= 'a' && k[i] <= 'z') // member names: lower-case ASCII (bound); "a" is taken
+		vpAssume(k[i] >= 'a' && k[i] <= 'z') // member names: lower-case ASCII (bound); "a" and "n" are taken
 	}
 	hasUnsigned := vpNondetBool("has_unsigned")
 	hasOldSig := vpNondetBool("has_old_sig")
